@@ -8,6 +8,7 @@ import (
 	"sync/atomic"
 	"time"
 
+	"github.com/vicanso/pike/config"
 	"verifh/hx"
 )
 
@@ -53,7 +54,15 @@ func c04Gen(rnd *rand.Rand, i int) c04Case {
 	return c
 }
 
-func c04RunCase(r *hx.Run, w *W, ps *plans, c c04Case) {
+// c04Target where a history runs: plain cache, cache with a store that keeps records past their
+// expiry, or a tiny cache with such a store whose entries are evicted between steps
+type c04Target struct {
+	name  string
+	addr  string
+	evict bool
+}
+
+func c04RunCase(r *hx.Run, w *W, ps *plans, c c04Case, tg c04Target, rnd *rand.Rand) {
 	a := ans{Kind: "cacheable", T: c.T, Age: c.Age}
 	ps.set(c.URI, &plan{Seq: []ans{a}})
 	defer ps.del(c.URI)
@@ -63,11 +72,23 @@ func c04RunCase(r *hx.Run, w *W, ps *plans, c c04Case) {
 	var trace []interface{}
 	for si, st := range c.Steps {
 		now := w.Clock.Advance(st.Advance)
+		if tg.evict && rnd.Intn(2) == 0 {
+			// push the key out of the tiny LRU: the next lookup reloads the record from the store
+			for k := 0; k < 24; k++ {
+				w.Cl.Get(tg.addr, "c04.example", fmt.Sprintf("/c04fill/%d", k))
+			}
+			r.Add("evictions_forced_between_steps", 1)
+		}
 		before := w.Farm.LogLen()
 		wasHit := m.State == stHit
 		elapsed := now - m.Created
-		res := burst(w, st.Burst, hx.Req{Addr: w.Addr, Host: "c04.example", URI: c.URI})
-		fetches := w.Farm.LogSince(before)
+		res := burst(w, st.Burst, hx.Req{Addr: tg.addr, Host: "c04.example", URI: c.URI})
+		var fetches []*hx.Fetch
+		for _, f := range w.Farm.LogSince(before) {
+			if f.URI == c.URI {
+				fetches = append(fetches, f)
+			}
+		}
 		if wasHit && elapsed == m.T {
 			boundaryAt = true
 			r.Add("probes_at_exact_expiry_second", 1)
@@ -85,7 +106,7 @@ func c04RunCase(r *hx.Run, w *W, ps *plans, c c04Case) {
 		}
 		r.Add("requests", int64(len(res)))
 		if kind != "" {
-			r.Violate(kind, map[string]string{"mode": "sequential"}, text, map[string]interface{}{"trace": trace, "results": briefs(res)}, c)
+			r.Violate(kind, map[string]string{"mode": "sequential", "target": tg.name}, text, map[string]interface{}{"trace": trace, "results": briefs(res)}, map[string]interface{}{"case": c, "target": tg.name})
 			return
 		}
 		for _, x := range res {
@@ -96,9 +117,10 @@ func c04RunCase(r *hx.Run, w *W, ps *plans, c c04Case) {
 	}
 	r.Add("epochs", int64(epochs))
 	if epochs >= 2 && (boundaryAt || boundaryAfter) {
-		r.Distinct(fmt.Sprintf("T=%d age=%s steps=%v", c.T, c.Age, c.Steps))
+		r.Distinct(fmt.Sprintf("%s T=%d age=%s steps=%v", tg.name, c.T, c.Age, c.Steps))
 	}
-	r.Sample(map[string]interface{}{"case": c, "trace_head": trace[:min(4, len(trace))]})
+	r.Add("histories_on_"+tg.name, 1)
+	r.Sample(map[string]interface{}{"case": c, "target": tg.name, "trace_head": trace[:min(4, len(trace))]})
 }
 
 func min(a, b int) int {
@@ -273,18 +295,31 @@ func c04Concurrent(r *hx.Run, w *W, ps *plans, rnd *rand.Rand) {
 
 func c04(r *hx.Run) {
 	r.Rule = "sequential: generated histories (T from {1,2,3,5,10,60,3600,86400,2^31-1}, origin Age none/0/1/T-1, 6-15 steps of (advance d in {0,1,L-1,L,L+1,2L+3,L/2}, concurrent burst of 1-8) with the clock moved only at quiescence, replayed exactly against the entry model (both directions); directed: clock tick between lookup and Age(); concurrent: 16 clients under a ticking virtual clock judged by interval-sound bounds. Non-trivial = history with >=2 epochs that probed the exact expiry second or the one after; distinct = case spec."
-	r.Assume = []string{"time is pike's only clock seam cache.nowUnix, replaced by a virtual clock (hook)", "no eviction: cache size 100000 >> keys"}
+	r.Assume = []string{"time is pike's only clock seam cache.nowUnix, replaced by a virtual clock (hook)", "memory-only and store targets: no eviction (cache 100000 >> keys); the tiny-cache target evicts on purpose and relies on its (reliable, TTL-ignoring) in-memory store, so a fresh entry is still a hit after reload"}
 	rnd := rand.New(rand.NewSource(r.Seed))
-	w := newSimpleWorld(r, hx.SimpleCfg{CacheName: "c04"}, 1, true)
+	ports := hx.FreePorts(3)
+	w := newWorldCfg(r, 1, true, func(origins []string) *config.PikeConfig {
+		hx.NewMemStore("mem://c04/s")
+		hx.NewMemStore("mem://c04/t")
+		return &config.PikeConfig{
+			Caches: []config.CacheConfig{{Name: "c04", Size: 100000, HitForPass: "5m"},
+				{Name: "c04s", Size: 100000, HitForPass: "5m", Store: "mem://c04/s"}, {Name: "c04t", Size: 8, HitForPass: "5m", Store: "mem://c04/t"}},
+			Upstreams: []config.UpstreamConfig{{Name: "u", Servers: []config.UpstreamServerConfig{{Addr: origins[0]}}}},
+			Locations: []config.LocationConfig{{Name: "l", Upstream: "u"}},
+			Servers: []config.ServerConfig{{Addr: srvAddr(ports[0]), Locations: []string{"l"}, Cache: "c04"},
+				{Addr: srvAddr(ports[1]), Locations: []string{"l"}, Cache: "c04s"}, {Addr: srvAddr(ports[2]), Locations: []string{"l"}, Cache: "c04t"}},
+		}
+	})
 	defer w.Farm.Close()
 	w.Pts = hx.InstallPoints(r.Seed)
 	ps := &plans{}
 	w.Farm.SetScript(ps.script)
+	targets := []c04Target{{"memory_only", srvAddr(ports[0]), false}, {"store_keeping_expired_records", srvAddr(ports[1]), false}, {"tiny_cache_with_store_evicting", srvAddr(ports[2]), true}}
 	n := r.Pick(400, 20000)
 	for i := 0; i < n && !r.TooMany(); i++ {
 		c := c04Gen(rnd, i)
 		r.Eval(1)
-		c04RunCase(r, w, ps, c)
+		c04RunCase(r, w, ps, c, targets[i%3], rnd)
 		if i%200 == 0 {
 			w.Farm.Trim()
 		}
